@@ -33,7 +33,7 @@ def parse_rgs(cols_str):
     return [parse_cols(part) for part in cols_str.split("RG")[1:]]
 
 
-def evaluate(chk, setname, shapes, rng, pages=(1, 2, 1000), codecs=(0, 1), cap=40):
+def evaluate(chk, setname, shapes, rng, pages=(1, 2, 1000), codecs=(0, 1), cap=40, extra=None):
     """(see module docstring) the value *structures* are drawn from a fixed generator so that the
     set of nil/list-length combinations per shape does not depend on VERIF_SEED; leaf values do."""
     """returns {shape.name: {"kind": ok|gen-fail|compile-error|nondeterministic|panic|mismatch|invalid-file|striping|write-error|model-mismatch,
@@ -66,6 +66,8 @@ def evaluate(chk, setname, shapes, rng, pages=(1, 2, 1000), codecs=(0, 1), cap=4
                 ops.append("W")
                 ws.append(Fm.Workload(s, codec, mx, ops, "enum"))
                 k += 1
+    if extra:
+        ws += extra(good)
     res = Fm.exercise(chk, runner, good, ws, setname, validate_level=2, read=True)
     # reference striping of every distinct record
     recs = {}
